@@ -28,6 +28,7 @@ import (
 	"io"
 	"net/http"
 	"net/url"
+	"slices"
 	"strings"
 	"time"
 
@@ -215,7 +216,20 @@ func executeOCSPCheck(ctx context.Context, cert, issuer *x509.Certificate, serve
 		return nil, GenericError{Err: errors.New("OCSP signature required")}
 	}
 
-	return ocsp.ParseResponseForCert(body, cert, issuer)
+	ocspResp, err := ocsp.ParseResponseForCert(body, cert, issuer)
+	if err != nil {
+		return nil, err
+	}
+	// RFC 6960, Section 4.2.2.2: a response that is not signed by the issuer
+	// itself must be signed by a delegate that the issuer authorized with the
+	// id-kp-OCSPSigning extended key usage. ParseResponseForCert only checks
+	// that the issuer signed the embedded responder certificate.
+	if responder := ocspResp.Certificate; responder != nil && !responder.Equal(issuer) {
+		if !slices.Contains(responder.ExtKeyUsage, x509.ExtKeyUsageOCSPSigning) {
+			return nil, GenericError{Err: errors.New("OCSP responder certificate is not authorized for OCSP signing")}
+		}
+	}
+	return ocspResp, nil
 }
 
 func postRequest(ctx context.Context, req []byte, server string, httpClient *http.Client) (*http.Response, error) {
